@@ -388,6 +388,8 @@ func floatSpec[T float32 | float64](c *ctx, pkg, encName, decName string, encF f
 			fs = append(fs, finding{rule: "roundtrip", class: class, got: show(got), want: show(v)})
 		case v == 0 && math.Signbit(f64) != math.Signbit(float64(got)):
 			r.Count("negative-zero-sign-lost/"+name, 1)
+		case v == 0 && math.Signbit(f64):
+			r.Count("negative-zero-sign-kept/"+name, 1)
 		}
 		return fs, ""
 	}
